@@ -223,7 +223,8 @@ def symGk (closeFlags : List Bool) : GpaK Nat Nat where
     | a :: _ => if 2000 ≤ a then 1000 + (a - 2000) + 1 else 1000
     | [] => 1000
   norm := fun _ => 0
-  rescale := fun _ _ x => x
+  ratio := fun _ _ => 0
+  scaleAbout := fun _ _ x => x
   dist := fun a _ => a
   below := fun a => closeFlags.getD (a - 1000) false
 
